@@ -146,6 +146,8 @@ type Op struct {
 	GroupOpt string `json:"go,omitempty"`
 	As       []int  `json:"as,omitempty"` // interface type indexes for dig.As
 	Callback bool   `json:"cb,omitempty"`
+	// CbPanic: the callback panics (with a *InjCbPanic) the first time it fires.
+	CbPanic bool `json:"cbp,omitempty"`
 	Info     bool   `json:"info,omitempty"`
 	// Invalid: non-empty when the generator deliberately made this call violate a
 	// documented rule; the value names the cause (see invalid.go).
@@ -236,6 +238,9 @@ func (h *History) Describe() []string {
 			}
 			if o.Callback {
 				s += " callback"
+				if o.CbPanic {
+					s += "(panics once)"
+				}
 			}
 			if o.Info {
 				s += " info"
